@@ -86,6 +86,15 @@ TIMERS = {
 def cases(tier, seed, i, n):
     def allcases():
         depth = 2 if tier == 'quick' else 3
+        # every fault at the library's / application's 1st..3rd frame write and 1st..3rd read, for short histories
+        for hs in ('ok', 'ok+frame'):
+            for seq in (['text'], ['ping'], ['close'], ['text', 'close'], ['ping', 'text'], ['frag', 'drip'], ['drip']):
+                for op in ('sendall', 'recv'):
+                    for k in (1, 2, 3):
+                        for fk in ('reset', 'timeout', 'runtime', 'reset-braces', 'eintr-partial'):
+                            yield dict(kind='hist', hs=hs, seq=seq, seg='perstep', faults=[[op, k, fk]])
+        for c in connect_phase_cases():
+            yield c
         for hs in HS:
             for d in range(0, depth + 1):
                 if hs in ('200', 'wrong-accept', 'oversize') and d > 1:
@@ -100,15 +109,6 @@ def cases(tier, seed, i, n):
                        seg=rnd.choice(('perstep', 'coalesced', 'bytewise')),
                        faults=[[rnd.choice(('sendall', 'recv')), rnd.randint(1, 4), rnd.choice(('reset', 'timeout', 'runtime'))]]
                        if rnd.random() < 0.3 else [])
-        # every fault at the library's / application's 1st..3rd frame write and 1st..3rd read, for short histories
-        for hs in ('ok', 'ok+frame'):
-            for seq in (['text'], ['ping'], ['close'], ['text', 'close'], ['ping', 'text'], ['frag', 'drip'], ['drip']):
-                for op in ('sendall', 'recv'):
-                    for k in (1, 2, 3):
-                        for fk in ('reset', 'timeout', 'runtime', 'reset-braces', 'eintr-partial'):
-                            yield dict(kind='hist', hs=hs, seq=seq, seg='perstep', faults=[[op, k, fk]])
-        for c in connect_phase_cases():
-            yield c
     return gen.shard(allcases(), i, n)
 
 
